@@ -25,6 +25,9 @@ claimed = {
  "C13": ("Frame obligations: (1) for every function under an explicit contract, the deductive frame obligation 'every pre-existing heap cell outside the modifies clause is unchanged at every return' (SMT, all inputs, all aliasing) - this covers configuration tables, package-level constants and every caller slice/pointee not listed; (2) for every other non-test function of /repo the default frame contract (no write rooted at a package-level variable; parameters written through must be out-parameters or on the reviewed allow-list) is decided per store/call by a syntactic root-tracing argument over go/ssa with interprocedural summaries. The only allowed input mutations are the documented ones (BatchNormalize / CreateMultiProof re-normalising commitments, in-place field helpers).",
          "Assumed: external (stdlib/gnark) methods without contract write only their receiver except the listed destination-argument methods; reflection/unsafe absent; the allow-list in sweep.go (reviewed, 9 entries); 'result is independent of preceding calls' follows only for functions whose effects are covered by these frames; generator and solvers.",
          "DESIGN.md §8 C13", "contract-based deductive verification: modifies-clause frame obligations (SMT) plus default frame contracts discharged by syntactic root tracing over go/ssa"),
+ "C14": ("Deductive proof over a ghost byte-string model (abstract Bytes sort with concatenation, SHA-256 uninterpreted) that the real transcript code implements the specified hash chain: a fresh transcript holds the protocol label; DomainSep/AppendMessage/AppendScalar/AppendPoint append label then message, whatever the pending size; scalars and points are absorbed as their canonical 32-byte encodings (LE scalar, compressed point of the element's class); ChallengeScalar returns LE(SHA-256(pending || label)) mod r, resets the state and re-absorbs label || challenge. Equal call sequences give equal challenges because every postcondition is a function of the ghost state.",
+         "Assumed: bytes.Buffer appends everything and never fails, hash.Hash/sha256 semantics (A4); field view of SetBytesLE/BytesLE (A3); NOT decided (no contract can): that any change of a label/message/order changes the challenge - that is collision resistance of SHA-256 plus framing, see DESIGN §10; generator and solvers.",
+         "DESIGN.md §8 C14", "contract-based deductive verification with a ghost byte-string model, discharged by z3 (E-matching)"),
 }
 hooks=subprocess.run(['git','-C','/repo','log','--format=%H %s'],capture_output=True,text=True).stdout.strip().split('\n')
 hook_commits=[l.split()[0] for l in hooks if 'verif hook' in l]
